@@ -20,7 +20,8 @@ PAYLOAD = {'intArray': ('Int', 'intValue'), 'longArray': ('Long', 'longValue'), 
            'stringArray': ('String', 'stringValue'), 'charArray': ('Char', 'charValue'), 'qubitArray': ('Qubit', 'qubit')}
 ARRS = [('intArray', 'int', 'IntArray'), ('longArray', 'long', 'LongArray'), ('floatArray', 'double', 'FloatArray'), ('bitArray', 'int', 'BitArray'),
         ('boolArray', '_Bool', 'BooleanArray'), ('stringArray', 'bl_str', 'StringArray'), ('charArray', 'char', 'CharArray')]
-DROPS = ['region eval_cast: the CastExpression branch of eval, whole; typeInfoFromAst(cast->targetType).kind is an uninterpreted function of the type node; float payloads lie inside the int range (see ASSUMPTIONS)',
+DROPS = ['region eval_postfix: the variable case of the PostfixExpression branch of eval (`x++` / `x--`); the operator text is an interned id',
+         'region eval_cast: the CastExpression branch of eval, whole; typeInfoFromAst(cast->targetType).kind is an uninterpreted function of the type node; float payloads lie inside the int range (see ASSUMPTIONS)',
          'region array_load: the IndexExpression branch of eval (`a[i]`), whole; the Value constructors {tag, int, float, bit} are a model that sets exactly those members',
          'region array_store: the ArrayAssignmentExpression branch of eval from `Value arr = lookup(var->name);` to its end (the check that the target is a variable comes before it); the node\'s line / column become parameters, its sub-expressions opaque ids',
          'Value keeps type, the scalar payloads and the seven element vectors that can be stored into; each vector is an inline array of at most AMAXS = 4 elements with its size (operator[] asserts the index is inside the vector: that assertion is the memory-safety obligation); strings are interned ids; diagnostic text is dropped',
@@ -93,7 +94,7 @@ class Profile(Lower):
         return super().decl(v)
 
     def string_literal(self, n):
-        return '0'
+        return {'"++"': 'BL_OP_INC', '"--"': 'BL_OP_DEC'}.get(n.get('value'), '0')      # other literals are diagnostic text
 
     def member(self, n):
         base = strip_parens(kids(n)[0])
@@ -102,6 +103,8 @@ class Profile(Lower):
             return 'aassign_%s' % n['name']
         if sb.get('kind') == 'DeclRefExpr' and sb['referencedDecl']['name'] == 'indexExpr' and n['name'] in ('line', 'column', 'index', 'collection'):
             return 'indexExpr_%s' % n['name']
+        if sb.get('kind') == 'DeclRefExpr' and sb['referencedDecl']['name'] == 'post' and n['name'] == 'op':
+            return 'post_op'
         if sb.get('kind') == 'DeclRefExpr' and sb['referencedDecl']['name'] == 'cast' and n['name'] in ('line', 'column', 'expression', 'targetType'):
             return 'cast_%s' % n['name']
         if sb.get('kind') == 'DeclRefExpr' and sb['referencedDecl']['name'] == 'target' and n['name'] == 'kind':
@@ -121,6 +124,8 @@ class Profile(Lower):
             return 'VEC_AT(%s, %s)' % (self.expr(args[0]), self.expr(args[1]))
         if op == 'operator=' and (t0 in ('bl_str', '_Bool') or 'reference' in norm_type(qt(args[0]))):
             return '(%s = %s)' % (self.expr(args[0]), self.expr(args[1]))
+        if op in ('operator==', 'operator!=') and t0 == 'bl_str':
+            return '(%s %s %s)' % (self.expr(args[0]), op[len('operator'):], self.expr(args[1]))
         if op == 'operator+' and self.ctype_safe(qt(n)) == 'bl_str':
             return '0'                           # diagnostic text
         raise Unsupported('operator %s on %s' % (op, qt(args[0])))
@@ -141,6 +146,11 @@ class Profile(Lower):
             a = [self.expr(x) for x in args] + ['0', '0.0', '0', '0', '0'][len(args) - 1:]
             return 'astore_value_ctor(%s)' % ', '.join(a[:6])
         raise Unsupported('ctor %s/%d' % (qt(n), len(args)))
+
+    def cast(self, n):
+        if n.get('castKind') == 'ArrayToPointerDecay' and strip_parens(kids(n)[0]).get('kind') == 'StringLiteral':
+            return self.expr(kids(n)[0])
+        return super().cast(n)
 
     def initlist(self, n):
         if self.ctype_safe(qt(n)) == 'Value' and 2 <= len(kids(n)) <= 6:
@@ -223,6 +233,24 @@ def lower_regions(docs, prof):
             prof.region_unlowered = {}
         prof.region_unlowered['array_load'] = str(e)
         out.append((hl, None))
+    hp = 'Value astore_eval_postfix(bl_str post_op, bl_str var_name)'
+    try:
+        ds = cxx2c.find_functions(docs, 'eval')
+        body = [k for k in kids(ds[0]) if k.get('kind') == 'CompoundStmt'][0]
+        n, cst = find_region(body, 'post')
+        if not any('PostfixExpression' in c for c in cst):
+            raise Unsupported('region `post` is no longer the dynamic_cast<PostfixExpression*> branch')
+        inner = [st for st in kids(kids(n)[2]) if st.get('kind') == 'IfStmt' and st.get('hasVar')]
+        if len(inner) != 1 or kids(kids(inner[0])[0])[0].get('name') != 'var':
+            raise Unsupported('postfix branch: `if (auto var = dynamic_cast<VariableExpression*>(post->left.get()))` not found')
+        d = dict(kind='FunctionDecl', name='eval_postfix', type=dict(qualType='bloch::runtime::Value ()'), inner=[kids(inner[0])[2]])
+        h, lines = prof.func(d, cname='eval_postfix', is_method=False)
+        out.append((hp, lines))
+    except Unsupported as e:
+        if not hasattr(prof, 'region_unlowered'):
+            prof.region_unlowered = {}
+        prof.region_unlowered['eval_postfix'] = str(e)
+        out.append((hp, None))
     hc = 'Value astore_eval_cast(int cast_line, int cast_column, bl_ast cast_expression, bl_ast cast_targetType)'
     try:
         ds = cxx2c.find_functions(docs, 'eval')
@@ -348,6 +376,22 @@ CONTRACTS['array_load'] = {
         E('eval.array_load.result_is_the_element', '(bl_exc == 0 && (long)LIDX >= 0 && (long)LIDX < AMAXS) ==> ' + lsel('%s.type == VTAG && EQ(%s.FLD, g_ev0.ARR.data[LIDX])' % (RET, RET), '0'), ['C07']),
     ],
 }
+WRAP_I = lambda x, d: '(%s %s 1)' % (x, d)
+WRAP_L = lambda x, d: '(%s %s 1L)' % (x, d)
+CONTRACTS['eval_postfix'] = {
+    'contract': [
+        R('bl_exc == 0 && SIZES_OK(g_arr0) && g_store_n == 0 && (post_op == BL_OP_INC || post_op == BL_OP_DEC)'),
+        # values stay inside the range where the documentation fixes the result (C07): not at the end of the int / long range
+        R('g_arr0.intValue > INT_MIN && g_arr0.intValue < INT_MAX && g_arr0.longValue > LONG_MIN && g_arr0.longValue < LONG_MAX'),
+        A('g_stored, g_store_n, g_store_name'),
+        # C07 (postfix ++/--): the expression yields the value BEFORE the update; the variable is written once with the value one larger / smaller
+        E('eval.postfix.yields_the_old_value', '%s.type == g_arr0.type && %s.intValue == g_arr0.intValue && %s.longValue == g_arr0.longValue && __CPROVER_equal(%s.floatValue, g_arr0.floatValue)' % ((RET,) * 4), ['C07']),
+        E('eval.postfix.writes_the_variable_once', 'g_store_n == 1 && g_store_name == var_name && g_stored.type == g_arr0.type', ['C07']),
+        E('eval.postfix.int_moves_by_one', '(g_arr0.type == BL_Int) ==> g_stored.intValue == (post_op == BL_OP_INC ? %s : %s)' % (WRAP_I('g_arr0.intValue', '+'), WRAP_I('g_arr0.intValue', '-')), ['C07']),
+        E('eval.postfix.long_moves_by_one', '(g_arr0.type == BL_Long) ==> g_stored.longValue == (post_op == BL_OP_INC ? %s : %s)' % (WRAP_L('g_arr0.longValue', '+'), WRAP_L('g_arr0.longValue', '-')), ['C07']),
+        E('eval.postfix.float_moves_by_one', '(g_arr0.type == BL_Float) ==> __CPROVER_equal(g_stored.floatValue, (post_op == BL_OP_INC ? g_arr0.floatValue + 1.0 : g_arr0.floatValue - 1.0))', ['C07']),
+    ],
+}
 CONTRACTS['eval_cast'] = {
     'contract': [
         R('bl_exc == 0 && g_evals == 0'),
@@ -364,6 +408,8 @@ CONTRACTS['eval_cast'] = {
     ],
 }
 HARNESSES = [
+    dict(name='eval_postfix', fn='eval_postfix', replace=[], flags=[], props=['C07', 'C12'], timeout=300,
+         cbmc_args=['--no-signed-overflow-check'] if False else [], canaries=[('a0 == BL_OP_INC', 'increment'), ('a0 == BL_OP_DEC', 'decrement')]),
     dict(name='eval_cast', fn='eval_cast', replace=[], flags=[], props=['C07', 'C12', 'C13'], timeout=600,
          canaries=[('bl_exc == 0', 'converted'), ('bl_exc != 0 && g_evals == 1', 'invalid cast')]),
     dict(name='array_load', fn='array_load', replace=[], flags=[], props=['C12', 'C07', 'C13'], timeout=600,
